@@ -75,7 +75,7 @@ macro_rules! with_dist_nn {
 pub fn check(c: &Case, obs: &mut Obs) {
     obs.class_if(c.f32, "f32");
     obs.class_if(!c.f32, "f64");
-    let c = &shape_variant(c, obs);
+    let c = &shape_variant(c, obs, 1);
     if c.x.is_empty() {
         return obs.skip("no_rows");
     }
